@@ -2,4 +2,4 @@ From Coq Require Import ZArith List.
 From BQ Require Import pass.Skeleton pass.SkeletonWf.
 From Coq Require Extraction ExtrOcamlBasic.
 Extraction "skeleton_model.ml" qsearch leap linreg_delta_neg check_new_best check_leap_condition
-  compile_list set_target synthesis_run set_target_pass run_seq check pop_min.
+  compile_list pas set_target synthesis_run set_target_pass run_seq check pop_min.
